@@ -65,6 +65,7 @@ func (e *Engine) refineByteVal(st *State, v ssa.Value, set ByteSet) {
 			if iv, ok := st.getv(av.idx); ok && iv.k == vIdx && iv.ilo >= 0 && iv.safe < 1 {
 				iv.safe = 1
 				st.setv(av.idx, iv)
+				e.propagateSafe(st, av.idx, 1, 0)
 			}
 		}
 	case vInt:
@@ -79,6 +80,27 @@ func (e *Engine) refineByteVal(st *State, v ssa.Value, set ByteSet) {
 			return
 		}
 		st.setv(v, intVal(keep...))
+	}
+}
+
+// propagateSafe: index value v = x + k (k a constant) was shown to have `safe` more bytes of input in front of it:
+// then x has safe + k of them (z.Peek(i+n) read a non-zero byte: the count n itself is an index with n + (i+1) <= E).
+func (e *Engine) propagateSafe(st *State, v ssa.Value, safe int, depth int) {
+	bo, ok := v.(*ssa.BinOp)
+	if !ok || bo.Op != token.ADD || depth > 3 {
+		return
+	}
+	for _, pr := range [][2]ssa.Value{{bo.X, bo.Y}, {bo.Y, bo.X}} {
+		k, isK := e.eval(st, pr[1]).constInt()
+		xv, has := st.getv(pr[0])
+		if !isK || !has || xv.k != vIdx || k < 0 || k > 64 {
+			continue
+		}
+		if xv.safe < safe+int(k) {
+			xv.safe = safe + int(k)
+			st.setv(pr[0], xv)
+			e.propagateSafe(st, pr[0], xv.safe, depth+1)
+		}
 	}
 }
 
